@@ -90,7 +90,14 @@ fn event_minutes(ch: &mut Choices, case: &mut Case) -> Result<(), String> {
     };
     let coords = Coordinates::new(lat, lon).ok_or_else(|| format!("valid coordinates ({lat}, {lon}) rejected"))?;
     let Some(sun_coords) = sunrise::Coordinates::new(lat, lon) else { return Err("harness: coordinates rejected by the sunrise crate".into()) };
-    let locale = TzLocation::new(tz).with_coords(coords);
+    // a third of the locations had other coordinates attached before: the last ones count (S-C11-j keeps the first)
+    let locale = if ch.chance(33) {
+        let (lat0, lon0) = gen_coords_60(ch);
+        case.label("coordinates_attached_twice");
+        TzLocation::new(tz).with_coords(Coordinates::new(lat0, lon0).ok_or("valid coordinates rejected")?).with_coords(coords)
+    } else {
+        TzLocation::new(tz).with_coords(coords)
+    };
     case.key = format!("({lat:.4}, {lon:.4}) in {tz} on {d}");
     let events = [("dawn", SolarEvent::Dawn(DawnType::Civil)), ("sunrise", SolarEvent::Sunrise), ("sunset", SolarEvent::Sunset), ("dusk", SolarEvent::Dusk(DawnType::Civil))];
     let mut odd = false;
@@ -550,16 +557,16 @@ pub fn property() -> Property {
                 text_f: None,
                 cases_quick: 40_000,
                 cases_thorough: 200_000,
-                max_choices: 24,
+                max_choices: 40,
             },
             SubCheck {
                 name: "event_minutes",
-                rule: "coordinates (|lat| <= 60) x any chrono-tz zone x date (55 % in 1900..1939, the eras of local mean time) under TzLocation::new(zone).with_coords(..): `dawn-24:00`, `sunrise-24:00`, `sunset-24:00`, `dusk-24:00` open exactly at the minute obtained by expressing the event's UTC instant (sunrise crate) on the zone's wall clock with chrono-tz and flooring to the minute; non-trivial = the zone's offset has a seconds part on that day",
+                rule: "coordinates (|lat| <= 60) x any chrono-tz zone x date (55 % in 1900..1939, the eras of local mean time) under TzLocation::new(zone).with_coords(..) (a third of them after other coordinates had been attached first): `dawn-24:00`, `sunrise-24:00`, `sunset-24:00`, `dusk-24:00` open exactly at the minute obtained by expressing the event's UTC instant (sunrise crate) on the zone's wall clock with chrono-tz and flooring to the minute; non-trivial = the zone's offset has a seconds part on that day",
                 f: event_minutes,
                 text_f: None,
                 cases_quick: 30_000,
                 cases_thorough: 600_000,
-                max_choices: 24,
+                max_choices: 40,
             },
             SubCheck {
                 name: "ordering",
@@ -568,7 +575,7 @@ pub fn property() -> Property {
                 text_f: Some(ordering_text),
                 cases_quick: 40_000,
                 cases_thorough: 300_000,
-                max_choices: 24,
+                max_choices: 40,
             },
             SubCheck {
                 name: "acceptance",
